@@ -101,7 +101,7 @@ def stereo_sites(r: Ref):
         x, y = sorted(b)
         nx = sorted(r.nbr(x) - {y})
         ny = sorted(r.nbr(y) - {x})
-        if len(nx) in (1, 2) and len(ny) in (1, 2):
+        if len(nx) in (1, 2) and len(ny) in (1, 2) and not (set(nx) & set(ny)):  # atoms of a descriptor are pairwise distinct
             nx = nx + [None] * (2 - len(nx))
             ny = ny + [None] * (2 - len(ny))
             sites.append(("PlanarBond", (nx[0], nx[1], x, y, ny[0], ny[1])))
@@ -149,7 +149,7 @@ def decorate(r: Ref, rng, p_site=0.7, allow_none_parity=True, max_sites=3):
             if r.kind == "SCRG" and rng.random() < 0.4:
                 ch = {}
                 for c in rng.sample(("broken", "fleeting", "formed"), rng.randint(1, 3)):
-                    ch[c] = (cname, permute_ligands(cname, atoms, rng), rng.choice([p for p in PARITIES[cname] if p is not None]))
+                    ch[c] = (cname, permute_ligands(cname, atoms, rng), rng.choice(pars))
                 r.atom_changes[key] = ch
             else:
                 r.atom_stereo[key] = d
@@ -161,7 +161,7 @@ def decorate(r: Ref, rng, p_site=0.7, allow_none_parity=True, max_sites=3):
             if r.kind == "SCRG" and rng.random() < 0.4:
                 ch = {}
                 for c in rng.sample(allowed, rng.randint(1, len(allowed))):
-                    ch[c] = (cname, permute_ligands(cname, atoms, rng), rng.choice([p for p in PARITIES[cname] if p is not None]))
+                    ch[c] = (cname, permute_ligands(cname, atoms, rng), rng.choice(pars))
                 r.bond_changes[key] = ch
             elif role != "plain":
                 continue  # static bond stereo only on bonds present in reactant, product and TS
@@ -239,4 +239,56 @@ def corpus(kind, seed, n_random=60, small_n=3, elems=ELEMS):
                 r = next(assign_roles(r, rng))
             decorate(r, rng, allow_none_parity=(rep == 1))
             out.append((f"{name}/{rep}", r))
+    return out
+
+
+def wl_equivalent_pairs():
+    """non-isomorphic skeleton pairs that 1-WL colour refinement cannot separate: (name, n, edges1, edges2)"""
+    c6 = [(i, (i + 1) % 6) for i in range(6)]
+    two_c3 = [(0, 1), (1, 2), (2, 0), (3, 4), (4, 5), (5, 3)]
+    bicyclopropyl = two_c3 + [(0, 3)]
+    bicyclo220 = [(0, 1), (1, 2), (2, 3), (3, 0), (0, 4), (4, 5), (5, 1)]  # bicyclo[2.2.0]hexane: two fused 4-rings
+    prism = [(0, 1), (1, 2), (2, 0), (3, 4), (4, 5), (5, 3), (0, 3), (1, 4), (2, 5)]
+    k33 = [(i, j) for i in range(3) for j in range(3, 6)]
+    c8 = [(i, (i + 1) % 8) for i in range(8)]
+    two_c4 = [(0, 1), (1, 2), (2, 3), (3, 0), (4, 5), (5, 6), (6, 7), (7, 4)]
+    c3_c5 = [(0, 1), (1, 2), (2, 0), (3, 4), (4, 5), (5, 6), (6, 7), (7, 3)]
+    return [("C6 vs 2xC3", 6, c6, two_c3), ("bicyclopropyl vs bicyclo[2.2.0]hexane", 6, bicyclopropyl, bicyclo220),
+            ("prism vs K33", 6, prism, k33), ("C8 vs 2xC4", 8, c8, two_c4), ("2xC4 vs C3+C5", 8, two_c4, c3_c5)]
+
+
+def ligand_pattern_family(kind, quick=True):
+    """single centres / axes whose ligand ELEMENTS follow every pattern (AAAA, AAAB, AABB, AABC, ABCD, ...), every
+    parity: decides chirality non-trivially (meso-like and achiral patterns as well as chiral ones)"""
+    import itertools
+
+    out = []
+    specs = [("Tetrahedral", 4), ("SquarePlanar", 4), ("TrigonalBipyramidal", 5), ("Octahedral", 6)]
+    for cname, k in specs:
+        pats = set()
+        for es in itertools.product((1, 9, 17, 35), repeat=k):
+            # canonical pattern up to renaming of elements
+            m = {}
+            pats.add(tuple(m.setdefault(e, len(m)) for e in es))
+        pats = sorted(pats)
+        if quick and len(pats) > 40:
+            pats = pats[:: max(1, len(pats) // 40)]
+        for pat in pats:
+            elems = [(1, 9, 17, 35, 8, 7)[i] for i in pat]
+            r = mk(kind, k + 1, [(0, i) for i in range(1, k + 1)], [6] + elems)
+            for par in PARITIES[cname]:
+                if par is None:
+                    continue
+                g = r.copy()
+                g.atom_stereo[0] = (cname, tuple(range(k + 1)), par)
+                out.append((f"{cname}/{''.join('ABCDEF'[i] for i in pat)}/{par}", g))
+    for cname in ("PlanarBond", "AtropBond"):
+        for es in itertools.product((1, 9), repeat=4):
+            r = mk(kind, 6, [(0, 2), (1, 2), (2, 3), (3, 4), (3, 5)], [es[0], es[1], 6, 6, es[2], es[3]])
+            for par in PARITIES[cname]:
+                if par is None:
+                    continue
+                g = r.copy()
+                g.bond_stereo[frozenset((2, 3))] = (cname, (0, 1, 2, 3, 4, 5), par)
+                out.append((f"{cname}/{es}/{par}", g))
     return out
